@@ -344,6 +344,11 @@ def run(ctx):
                         "NaN results: sign and payload are compared between paired runs; the model has a single NaN",
                         "register dirtying covers xmm0-15 (the upper ymm/zmm halves and zmm16-31 are not set by the harness)"]
     ctx.prove("Props/C08.v")
+    # tie 1 (translator): the kernels this property speaks about, regenerated from op_*.rs, ARE the model (Props/C08Gen.v);
+    # a difference is reported as broken and the correspondence runs below search for the concrete input
+    ctx.translate(steps=("kernels",))
+    ctx.prove("Props/C08Gen.v")
+
     audit_source(ctx)
     symrun.run(ctx)
     for config in ("stable", "nightly"):
